@@ -721,6 +721,18 @@ static void check_foreach(Run &r, Box &b)
         a_buf_forenum(k, b.b) { VP_CHECK(r.cx, k == i, "seq:forenum", "a_buf_forenum index %zu at step %zu", (size_t)k, i); ++i; }
         VP_CHECK(r.cx, i == num, "seq:forenum", "a_buf_forenum counts %zu of %zu", i, num);
         a_buf_forenum_reverse(k, b.b) { --i; VP_CHECK(r.cx, k == i, "seq:forenum_reverse", "a_buf_forenum_reverse index %zu at step %zu", (size_t)k, i); }
+        // the forms with caller-declared loop variables
+        {
+            T *it, *at;
+            size_t k;
+            A_BUF_FOREACH(T *, it, at, b.b) { VP_CHECK(r.cx, i < num && (uint8_t *)it == base + i * sizeof(T), "seq:FOREACH", "A_BUF_FOREACH visits a wrong address at step %zu of %zu", i, num); ++i; }
+            VP_CHECK(r.cx, i == num, "seq:FOREACH", "A_BUF_FOREACH visits %zu of %zu elements", i, num);
+            A_BUF_FOREACH_REVERSE(T *, it, at, b.b) { VP_CHECK(r.cx, i > 0 && (uint8_t *)it == base + (i - 1) * sizeof(T), "seq:FOREACH_REVERSE", "A_BUF_FOREACH_REVERSE visits a wrong address"); --i; }
+            VP_CHECK(r.cx, i == 0, "seq:FOREACH_REVERSE", "A_BUF_FOREACH_REVERSE stops %zu elements early", i);
+            A_BUF_FORENUM(size_t, k, b.b) { VP_CHECK(r.cx, k == i, "seq:FORENUM", "A_BUF_FORENUM index %zu at step %zu", k, i); ++i; }
+            VP_CHECK(r.cx, i == num, "seq:FORENUM", "A_BUF_FORENUM counts %zu of %zu", i, num);
+            A_BUF_FORENUM_REVERSE(size_t, k, b.b) { --i; VP_CHECK(r.cx, k == i, "seq:FORENUM_REVERSE", "A_BUF_FORENUM_REVERSE index %zu at step %zu", k, i); }
+        }
     }
     else
     {
@@ -739,6 +751,17 @@ static void check_foreach(Run &r, Box &b)
         a_vec_forenum(k, b.v) { VP_CHECK(r.cx, k == i, "seq:forenum", "a_vec_forenum index %zu at step %zu", (size_t)k, i); ++i; }
         VP_CHECK(r.cx, i == num, "seq:forenum", "a_vec_forenum counts %zu of %zu", i, num);
         a_vec_forenum_reverse(k, b.v) { --i; VP_CHECK(r.cx, k == i, "seq:forenum_reverse", "a_vec_forenum_reverse index %zu at step %zu", (size_t)k, i); }
+        {
+            T *it, *at;
+            size_t k;
+            A_VEC_FOREACH(T *, it, at, b.v) { VP_CHECK(r.cx, i < num && (uint8_t *)it == base + i * sizeof(T), "seq:FOREACH", "A_VEC_FOREACH visits a wrong address at step %zu of %zu", i, num); ++i; }
+            VP_CHECK(r.cx, i == num, "seq:FOREACH", "A_VEC_FOREACH visits %zu of %zu elements", i, num);
+            A_VEC_FOREACH_REVERSE(T *, it, at, b.v) { VP_CHECK(r.cx, i > 0 && (uint8_t *)it == base + (i - 1) * sizeof(T), "seq:FOREACH_REVERSE", "A_VEC_FOREACH_REVERSE visits a wrong address"); --i; }
+            VP_CHECK(r.cx, i == 0, "seq:FOREACH_REVERSE", "A_VEC_FOREACH_REVERSE stops %zu elements early", i);
+            A_VEC_FORENUM(size_t, k, b.v) { VP_CHECK(r.cx, k == i, "seq:FORENUM", "A_VEC_FORENUM index %zu at step %zu", k, i); ++i; }
+            VP_CHECK(r.cx, i == num, "seq:FORENUM", "A_VEC_FORENUM counts %zu of %zu", i, num);
+            A_VEC_FORENUM_REVERSE(size_t, k, b.v) { --i; VP_CHECK(r.cx, k == i, "seq:FORENUM_REVERSE", "A_VEC_FORENUM_REVERSE index %zu at step %zu", k, i); }
+        }
     }
     VP_CHECK(r.cx, i == 0, "seq:forenum_reverse", "reverse enumeration stops %zu early", i);
 }
